@@ -87,6 +87,16 @@ def harness(eng, fam, P):
         w.bind({'threading': FakeThreading()})
         s = Sched(eng, P['P'], lines=bool(P.get('lines')))
         hook = install(w, s)
+        # a logical clock over the library's environment calls: when did the straggler last look at the file system, and
+        # when had the owner's API call returned (= its record is certainly closed)?
+        clock = {'t': 0, 'strag_obs': None, 'owner_returned': None}
+
+        def tick(op, args, mutating):
+            clock['t'] += 1
+            me = s.me()
+            if me is not None and me.name == 'straggler' and s.running:
+                clock['strag_obs'] = clock['t']
+        w.env.hooks.append(tick)
 
         invoked = []
 
@@ -151,6 +161,8 @@ def harness(eng, fam, P):
                     r = b.build_file(w.p('own.out'), 'own', own_body)
             except Boom:
                 r = 'caught'
+            clock['t'] += 1
+            clock['owner_returned'] = clock['t']
             if fam == 'after-owner':
                 # the owner's function is over, the build is not: a call on the leaked builder from the same thread
                 call(holder['b'])
@@ -172,6 +184,8 @@ def harness(eng, fam, P):
             return
         finally:
             w.env.hooks.remove(hook)
+            if tick in w.env.hooks:
+                w.env.hooks.remove(tick)
             s.close()
         sig = (fam, owner, 'raises' if owner_raises else 'returns', method)
         eng.path_info['schedule'] = s.trace[:8]
@@ -210,6 +224,12 @@ def harness(eng, fam, P):
                 eng.check('C17.rejected-call-left-a-file', w.fs.kind(out) == ABSENT, sig, info=info)
                 eng.check('C17.rejected-call-left-a-directory', w.fs.kind(w.p('strag')) == ABSENT, sig, info=info)
         elif v[0] == 'returned':
+            if fam == 'race' and owner != 'root' and method in QUERIES and clock['owner_returned'] is not None \
+                    and clock['strag_obs'] is not None:
+                # an accepted query whose look at the file system happened after the owner's call had returned: an
+                # observation attached to a closed record
+                eng.check('C17.observation-after-close-attached', clock['strag_obs'] < clock['owner_returned'], sig,
+                          info=dict(info, observed_at=clock['strag_obs'], owner_call_returned_at=clock['owner_returned']))
             # completed before the close: it is part of the owner's record (queries on the root builder are not recorded)
             if owner != 'root' or method in COMPLEX:
                 if not (owner_raises and owner == 'build_file' and False):
